@@ -121,8 +121,14 @@ def expect_stats(cases):
     return dict(per_tree), dict(per_node), tags
 
 
-def check_tasks_output(kind, outputs, cases):
+def check_tasks_output(kind, outputs, cases, bare_tokens=()):
+    """bare_tokens: POS tags of additional sentences that consist of nothing but their tagged token (the root is the
+    token: a tree of gap degree 0 without any constituent)"""
     per_tree, per_node, tags = expect_stats(cases)
+    if bare_tokens:
+        per_tree[0] = per_tree.get(0, 0) + len(bare_tokens)
+        tags = set(tags) | set(bare_tokens)
+        cases = list(cases) + [None] * len(bare_tokens)
     parsed = parse_gapdegree(outputs["GapDegree"])
     if parsed is None:
         raise violation("C16/%s/GapDegree/unparsable" % kind, outputs["GapDegree"][:300])
@@ -264,8 +270,12 @@ def check_tasks_inproc(case):
     cases, fmt = case["cases"], case["fmt"]
     tmpdir = tempfile.mkdtemp(prefix="c16i_")
     path = os.path.join(tmpdir, "corpus." + fmt)
+    text = {"export": CT.encode_export, "discobrackets": CT.encode_discobrackets, "tigerxml": CT.encode_tigerxml}[fmt](cases)
+    bare = list(case.get("bare") or []) if fmt == "discobrackets" else []
+    for tag in bare:
+        text += "(%s 1)\tyes\n" % tag          # a sentence that is nothing but its tagged token
     with open(path, "w", encoding="utf-8") as stream:
-        stream.write({"export": CT.encode_export, "discobrackets": CT.encode_discobrackets, "tigerxml": CT.encode_tigerxml}[fmt](cases))
+        stream.write(text)
     outputs = {}
     try:
         before = BEFORE[case["before"] % len(BEFORE)]
@@ -279,12 +289,13 @@ def check_tasks_inproc(case):
             outputs[task] = res.out
     finally:
         shutil.rmtree(tmpdir, ignore_errors=True)
-    check_tasks_output("cli-inproc", outputs, cases)
+    check_tasks_output("cli-inproc", outputs, cases, bare)
 
 
 def gen_tasks_inproc(ctx):
     quick = ctx.tier == "quick"
-    strategy = st.fixed_dictionaries({"cases": treebank(7, 5), "fmt": st.sampled_from(["export", "discobrackets", "tigerxml"]), "before": st.integers(0, 5)})
+    strategy = st.fixed_dictionaries({"cases": treebank(7, 5), "fmt": st.sampled_from(["export", "discobrackets", "tigerxml"]), "before": st.integers(0, 5),
+                                      "bare": st.lists(st.sampled_from(["UH", "NN"]), max_size=2)})
 
     def body(case):
         check_tasks_inproc(case)
